@@ -141,7 +141,44 @@ fn cli_case(map: &[Option<usize>], cs: &CallSet, container: Container, what: &st
 }
 
 fn eval_cli(map: &[Option<usize>], cs: &CallSet, rows: &[Vec<Cls>], container: Container, what: &str, scratch: &Scratch) -> Option<Viol> {
-    let bytes = render(cs, container, &Layout::Single);
+    let mut bytes = render(cs, container, &Layout::Single);
+    // text-level spellings of the same VCF: the last record without a line end; further meta lines
+    // (INFO / ALT / FILTER definitions, a free-form line, contig lines with extra keys) in front of and
+    // between the ones the file needs
+    if what == "no-final-newline" && container == Container::Vcf && bytes.last() == Some(&b'\n') {
+        bytes.pop();
+    }
+    if what == "extra-meta-lines" && container == Container::Vcf {
+        let text = String::from_utf8_lossy(&bytes).to_string();
+        let mut out = String::new();
+        for (i, line) in text.split_inclusive('\n').enumerate() {
+            out.push_str(line);
+            if i == 0 {
+                out.push_str("##source=\"a tool, with = and , in its name\"\n##INFO=<ID=AF,Number=A,Type=Float,Description=\"Allele frequency, estimated\">\n##ALT=<ID=DEL,Description=\"Deletion\">\n##FILTER=<ID=q10,Description=\"Quality below 10\">\n##reference=file:///ref.fa\n");
+            }
+            if line.starts_with("##contig") && i % 2 == 0 {
+                out.push_str("##PEDIGREE=<ID=s0,Original=s1>\n");
+            }
+        }
+        bytes = out.into_bytes();
+    }
+    // "samples-file:blank-in-names": every second sample column is called "<its left neighbour> rep"
+    // (sample names may contain blanks; the samples file separates sample and label by a tab)
+    let renamed = |i: usize| -> String { if i % 2 == 1 { format!("s{} rep", i - 1) } else { format!("s{i}") } };
+    if what == "samples-file:blank-in-names" && container == Container::Vcf {
+        let text = String::from_utf8_lossy(&bytes).to_string();
+        let mut out = String::new();
+        for line in text.split_inclusive('\n') {
+            if line.starts_with("#CHROM") {
+                let cols: Vec<String> = line.trim_end_matches('\n').split('\t').map(|c| match c.strip_prefix('s').and_then(|n| n.parse::<usize>().ok()) { Some(i) => renamed(i), None => c.to_string() }).collect();
+                out.push_str(&cols.join("\t"));
+                out.push('\n');
+            } else {
+                out.push_str(line);
+            }
+        }
+        bytes = out.into_bytes();
+    }
     let expect = ref_create(rows, map, None);
     let mut sa = sample_arg(map);
     if what == "grouped-by-population" {
@@ -174,6 +211,7 @@ fn eval_cli(map: &[Option<usize>], cs: &CallSet, rows: &[Vec<Cls>], container: C
     let samples_text: Option<String> = what.strip_prefix("samples-file:").map(|endings| {
         let lines: Vec<String> = sa.split(',').map(|e| e.replacen('=', "\t", 1)).collect();
         match endings {
+            "blank-in-names" => sa.split(',').map(|e| { let (n, l) = e.split_once('=').unwrap_or((e, "")); let i: usize = n.trim_start_matches('s').parse().unwrap_or(0); if l.is_empty() { format!("{}\n", renamed(i)) } else { format!("{}\t{l}\n", renamed(i)) } }).collect(),
             "lf" => lines.join("\n") + "\n",
             "lf-no-final" => lines.join("\n"),
             "crlf" => lines.join("\r\n") + "\r\n",
@@ -207,7 +245,7 @@ fn eval_cli(map: &[Option<usize>], cs: &CallSet, rows: &[Vec<Cls>], container: C
         // (an uncompressed BCF is conventionally called *.bcf as well)
         let dir = scratch.path(".d");
         std::fs::create_dir_all(&dir).expect("scratch dir");
-        let name = match container { Container::Vcf => "calls.vcf", Container::VcfGz => "calls.vcf.gz", Container::Bcf | Container::RawBcf => "calls.bcf" };
+        let name = match container { Container::Vcf => "calls.vcf", Container::VcfGz => "calls.vcf.gz", _ => "calls.bcf" };
         let path = dir.join(name);
         std::fs::write(&path, &bytes).expect("scratch write");
         let mut with_path = args.clone();
@@ -239,7 +277,7 @@ fn eval_cli(map: &[Option<usize>], cs: &CallSet, rows: &[Vec<Cls>], container: C
                 let argv: Vec<&str> = args.clone();
                 o.push(("argv".into(), J::strs(&argv)));
                 o.push(("input_hex".into(), J::s(crate::json::hex(&bytes))));
-                o.push(("by_path_name".into(), if what == "by-path" { J::s(match container { Container::Vcf => "calls.vcf", Container::VcfGz => "calls.vcf.gz", Container::Bcf | Container::RawBcf => "calls.bcf" }) } else { J::Null }));
+                o.push(("by_path_name".into(), if what == "by-path" { J::s(match container { Container::Vcf => "calls.vcf", Container::VcfGz => "calls.vcf.gz", _ => "calls.bcf" }) } else { J::Null }));
                 o.push(("samples_file_text".into(), match &samples_text { Some(t) => J::s(t.clone()), None => J::Null }));
                 o.push(("expect_shape".into(), J::usizes(&expect.spectrum.shape)));
                 o.push(("expect_data".into(), J::f64s(&expect.spectrum.data)));
@@ -479,9 +517,12 @@ pub fn run(tier: Tier) -> i32 {
             }
         }
         if map.iter().any(|p| p.is_some()) {
-            for endings in ["lf", "lf-no-final", "crlf", "crlf-no-final"] {
+            for endings in ["lf", "lf-no-final", "crlf", "crlf-no-final", "blank-in-names"] {
                 cjobs.push((map.clone(), all.clone(), rows.clone(), Container::Vcf, format!("samples-file:{endings}")));
             }
+        }
+        for w in ["no-final-newline", "extra-meta-lines"] {
+            cjobs.push((map.clone(), all.clone(), rows.clone(), Container::Vcf, w.to_string()));
         }
         for p in ["0", "1", "6", "17"] {
             cjobs.push((map.clone(), all.clone(), rows.clone(), Container::Vcf, format!("precision-{p}")));
@@ -515,10 +556,24 @@ pub fn run(tier: Tier) -> i32 {
         name: "cli: sfs create -s".into(),
         evaluations: cjobs.len() as u64,
         nontrivial: nt,
-        note: format!("S={s}: {} maps x ({} one-record VCFs + every-row call set in 4 containers on stdin and by path under its conventional file name + the rows complete among the selected samples under --strict / --threads / verbosity / precision flag combinations in vcf and bcf + the assignment as a samples file with LF / CRLF endings with and without a final line end + explicit --precision 0/1/6/17 + verbosity flags -q/-v/-vv/-vvv + a list naming one sample twice (same label; and with another label: error, first- or last-label assignment) + the list grouped by population (order unlike the column order) + 9 decorations in vcf and bcf)", maps.len(), rows.len()),
+        note: format!("S={s}: {} maps x ({} one-record VCFs + every-row call set in 4 containers on stdin and by path under its conventional file name + the rows complete among the selected samples under --strict / --threads / verbosity / precision flag combinations in vcf and bcf + the assignment as a samples file with LF / CRLF endings with and without a final line end + the VCF without a final line end and with further meta lines + explicit --precision 0/1/6/17 + verbosity flags -q/-v/-vv/-vvv + a list naming one sample twice (same label; and with another label: error, first- or last-label assignment) + the list grouped by population (order unlike the column order) + 9 decorations in vcf and bcf)", maps.len(), rows.len()),
         exhaustive: true,
         extra: vec![],
     });
+    {
+        let mut sp: Vec<(Vec<String>, Vec<u8>)> = Vec::new();
+        let all = callset_from_rows(s, &rows, 0);
+        let bytes = crate::gen::to_vcf(&all).0;
+        for map in maps.iter().filter(|m| m.iter().any(|p| p.is_some())) {
+            let sa = sample_arg(map);
+            for extra in [vec![], vec!["--precision", "3", "-vv"], vec!["-t", "2", "-q"]] {
+                let mut a: Vec<String> = vec!["create".into(), "-s".into(), sa.clone()];
+                a.extend(extra.iter().map(|e| e.to_string()));
+                sp.push((a, bytes.clone()));
+            }
+        }
+        super::spelling_part(&mut rep, "C01", "create -s <map> for every map on the every-row call set, alone and with precision / verbosity / thread options", &sp, &scratch);
+    }
     // large shapes: two populations of 32 samples (65 x 65 = 4225 entries) and one of 2100 entries
     {
         let mut big: Vec<(Vec<Option<usize>>, CallSet, Vec<Vec<Cls>>, Container, String)> = Vec::new();
